@@ -31,6 +31,7 @@ CLAIM = (
     "images with equal scan directions is a fixed point of align_translation for upsampling factors 1, 2, 3 and 8 (knots move < 1e-5 px); and on ONE object every ordered pair (thorough: triple) of preprocess configurations with the scan directions changed through the setter in between leaves the geometry of the last configuration only. "
     "The lattice is the right level: the defects live in shape/angle/knot-count corners (non-square, 1 knot, non-zero angle)."
     ' Further enumerated dimensions: pad_fraction 0, legal spellings incl. every integer / small-float angle-array dtype and image memory layouts with the resampled images compared to the canonical call, and copies of a preprocessed object (copy.copy, deepcopy, pickle, dill, save+load) used further alone and alternating with the original (a copy obeys the closed form; using one object leaves the other bit-identical and a fixed point).'
+    " An image-content dimension (single pixel, sparse, zero block, all zero, constant, integers, equal rows, negative) requires coordinates and weight maps to be independent of what the images hold."
 )
 NOTE = (
     "Trusted: the closed-form geometry written from the property statement (rotation R(theta) acting on (row, col) offsets, canvas centre "
